@@ -632,6 +632,7 @@ int main(int argc, char *argv[]) {
 
     if (!output_code_filename.open_write(output_code)) {
       nout << "Unable to write to " << output_code_filename << "\n";
+      exit(1);
     } else {
       output_code << output_buffer_str;
 
@@ -652,6 +653,12 @@ int main(int argc, char *argv[]) {
 
       if (build_python_native_wrappers) {
         write_python_table_native(output_code);
+      }
+
+      output_code.close();
+      if (output_code.fail()) {
+        nout << "Error writing to " << output_code_filename << "\n";
+        exit(1);
       }
     }
   }
